@@ -301,11 +301,39 @@ def check(ctx, rep):
         pass
     elif len(loops) != 1:
         rep.violation("length-gate", INNER_FN, "shape", "expected one loop over the characters, found %d" % len(loops), body.loc())
+    elif len(util.loop_exits(body, loops[0]["next_bb"]) - {(loops[0]["switch_bb"], loops[0]["exit_bb"])} - {e_ for e_ in util.loop_exits(body, loops[0]["next_bb"]) if _leads_to_err(body, e_[1])}) > 0:
+        rep.violation("normal-form", INNER_FN, "stored-byte", "the character loop can be left before the last character without an error (break inside the loop): later characters are neither checked nor stored", body.loc())
     else:
         check_loop(ctx, rep, INNER_FN, se, pr, loops[0])
     # the constructors, the view and the derives are decided whatever became of the loop rules
     # (other properties re-file them)
     check_tail(ctx, rep, INNER_FN)
+
+
+def _leads_to_err(body, bb):
+    """every path from bb returns, and the first aggregate built on it is an Err (the refusal
+    of a character): such an exit of the character loop is the early return of the verdict"""
+    seen = set()
+    work = [bb]
+    ok = True
+    while work and ok:
+        x = work.pop()
+        if x in seen:
+            continue
+        seen.add(x)
+        blk = body.blocks[x]
+        built = [s_ for s_ in blk["stmts"] if s_.get("k") == "assign" and s_["rv"].get("k") == "aggregate" and (s_["rv"].get("path") == "error::NormalizedStringError" or (s_["rv"].get("path") == "std::result::Result" and s_["rv"].get("variant") == 1))]
+        if any(s_.get("k") == "assign" and s_["rv"].get("k") == "aggregate" and s_["rv"].get("path") == "std::result::Result" and s_["rv"].get("variant") == 0 for s_ in blk["stmts"]):
+            ok = False      # an Ok is built on this path
+        if built:
+            continue        # this path builds the error (or the Err around it): fine
+        t = blk["term"]
+        if t["k"] == "return":
+            ok = False
+        for s_ in body.succs(x):
+            if body.blocks[s_]["term"]["k"] != "unreachable":
+                work.append(s_)
+    return ok
 
 
 def check_bulk(ctx, rep, INNER_FN, se, pr):
